@@ -5,6 +5,7 @@ import SlotVerif.Proofs.ShapeIdem
 import SlotVerif.Proofs.Syntax
 import SlotVerif.Proofs.ShapeDecode
 import SlotVerif.Proofs.ShapeApply
+import SlotVerif.Proofs.ShapeBij
 /-!
 # C16 — Node shapes are canonical modulo renaming; derived Language impls are coherent
 
@@ -303,6 +304,12 @@ theorem weakShape_idem (n : Node) : (Node.weakShape (Node.weakShape n).1).1 = (N
   obtain ⟨h1, _⟩ := ShapeIdem.step_fields n.fields h0
   simp only [Node.weakShape]
   rw [h1]
+
+/-- **the bijection `weak_shape` returns is a well-formed injective map**, for every node of every language (what the e-graph stores
+beside a shape and composes with on every lookup) -/
+theorem weakShape_bijection_wellformed (n : Node) :
+    SlotMap.wfb (Node.weakShape n).2 = true ∧ SlotMap.isBijection (Node.weakShape n).2 = true :=
+  Node.weakShape_bij_ok n
 
 /-- non-vacuity (kernel-checked): a binder shadowing a free slot of the same name -/
 def exShadow : Node := { v := 0, fields := [.slot 8, .bind 8 (.app { id := 3, m := [(0, 8), (4, 12)] }), .slot 8] }
